@@ -117,7 +117,7 @@ func ZZH_C10_Resolve() {
 	d := New()
 	var tbl *Table
 	var pics []zzhPic
-	k := zzvBound("pictures", 2, 3)
+	k := zzvBound("pictures", 2, 2)
 	for i := 0; i < k; i++ {
 		if i == 1 && zzvBool() {
 			zzvAssume(d.AddHeader(HeaderFooterTypeDefault, "h") == nil)
@@ -222,7 +222,7 @@ func ZZH_C10_Size() {
 	zzvFloatRel()
 	zzvMerge(false)
 	d := New()
-	maxPx := zzvBound("max_pixels", 16384, 65536)
+	maxPx := zzvBound("max_pixels", 16384, 16384)
 	w, h := zzvIntIn(1, maxPx), zzvIntIn(1, maxPx)
 	info := &ImageInfo{ID: "7", RelationID: "rId9", Width: w, Height: h}
 	var W, H float64
